@@ -294,7 +294,8 @@ func runFrame(c *Case) *Obs {
 // Codec
 
 var ip4s = map[int][4]byte{1: {192, 0, 2, 1}, 2: {10, 255, 0, 254}}
-var ip6s = map[int][16]byte{3: {0x20, 0x01, 0x0d, 0xb8, 0, 0, 0, 0, 0, 0, 0, 0, 0, 0, 0, 3}, 4: {0xfe, 0x80, 0, 0, 0, 0, 0, 0, 1, 2, 3, 4, 5, 6, 7, 8}}
+var ip6s = map[int][16]byte{3: {0x20, 0x01, 0x0d, 0xb8, 0, 0, 0, 0, 0, 0, 0, 0, 0, 0, 0, 3}, 4: {0xfe, 0x80, 0, 0, 0, 0, 0, 0, 1, 2, 3, 4, 5, 6, 7, 8},
+	5: {0, 0, 0, 0, 0, 0, 0, 0, 0, 0, 0xff, 0xff, 203, 0, 113, 5}}
 var rawip4 = [4]byte{198, 51, 100, 7}
 var rawip6 = [16]byte{0x20, 0x01, 0x0d, 0xb8, 0xff, 0, 0, 0, 0, 0, 0, 0, 0, 0, 0, 9}
 
